@@ -27,6 +27,8 @@
 #include <chrono>
 #include <random>
 #include <unistd.h>
+#include <csignal>
+#include <exception>
 
 using namespace TasGrid;
 
@@ -166,6 +168,16 @@ static void sched_sink(const char *where){
         else if (k < 9) std::this_thread::yield();
     }
 }
+
+// ------------------------------------------------------------------ crashes of the code under test leave their partial trace
+static void crash_flush(const char *what){
+    // best effort, no locking: the process is going down
+    logbuf += std::string("{\"e\":\"Crashed\",\"what\":\"") + what + "\"}\n";
+    flush_file();
+    _exit(99);
+}
+static void on_terminate(){ crash_flush("terminate"); }
+static void on_signal(int sig){ crash_flush(sig == SIGSEGV ? "SIGSEGV" : (sig == SIGABRT ? "SIGABRT" : "signal")); }
 
 // ------------------------------------------------------------------ watchdog
 static void watchdog(long long hang_ms){
@@ -388,6 +400,8 @@ int main(int argc, char **argv){
     out_path = argv[2];
     { FILE *f = fopen(out_path, "w"); if (!f){ perror("open trace"); return 2; } fclose(f); }
     long long hang_ms = (argc > 3) ? atoll(argv[3]) : 20000;
+    std::set_terminate(on_terminate);
+    std::signal(SIGSEGV, on_signal); std::signal(SIGABRT, on_signal); std::signal(SIGFPE, on_signal); std::signal(SIGBUS, on_signal);
     VerifHooks::eventSink().store(event_sink);
     VerifHooks::schedSink().store(sched_sink);
     std::thread(watchdog, hang_ms).detach();
